@@ -154,7 +154,7 @@ TEXT["C07"] = {
     "level": "Kernel-checked: in the byte-level model of the format, tags made of arbitrary bytes survive escape -> read exactly and the escaped form contains no raw ']' / LF / CR; printed unsigned numbers read back "
              "exactly below the reader's limit. Correspondence (equality): the Lean printer produces byte-for-byte what Circuit::str() prints (incl. %g formatting of arguments) and the Lean parser makes the "
              "same accept/reject decision and builds the same circuit as the implementation on printed circuits, edited texts, documented violations, truncated texts and random bytes.",
-    "note": COMMON_NOTE + "One genuine defect fixed (string entry points read byte 0xFF as end of input). The full parse-after-print theorem for whole circuits is established by correspondence, not proved.",
+    "note": COMMON_NOTE + "One genuine defect fixed (string entry points read byte 0xFF as end of input). Proved: tags, unsigned numbers, every target form, and whole target lists of any length through the parser's target loop (C07c.targets_round_trip); the parse-after-print statement for whole instructions (name lookup, arguments at six digits, validation, fusion) is established by correspondence.",
     "technique": "Lean 4 theorems (tag and number round trips) + equality correspondence with a byte-level printer/parser model",
 }
 NOT_CLAIMED = {}
